@@ -1488,6 +1488,10 @@ func (m *metadataAPI) RemoveStream(stream *stream, recovered bool, epoch uint64)
 	// recreate will un-tombstone the stream.
 	if recovered {
 		stream.Tombstone()
+		// Only the deletion of the stream's data waits for recovery to
+		// finish. Consumer groups see the stream deleted at this point in the
+		// log, as they do when the operation is not being recovered.
+		m.streamDeleted(stream, epoch)
 	} else {
 		if err := m.deleteStream(stream, epoch); err != nil {
 			return err
@@ -1562,6 +1566,16 @@ func (m *metadataAPI) removeStream(stream *stream, epoch uint64) {
 			delete(m.partitionFailovers, partition)
 		}
 	}
+	// If the stream was tombstoned, consumer groups were already notified when
+	// it was marked for deletion.
+	if !stream.IsTombstoned() {
+		m.streamDeleted(stream, epoch)
+	}
+}
+
+// streamDeleted triggers a rebalance of consumer group assignments for the
+// deleted stream.
+func (m *metadataAPI) streamDeleted(stream *stream, epoch uint64) {
 	m.startGoroutine(func() {
 		m.consumerGroupsMu.RLock()
 		for _, group := range m.consumerGroups {
